@@ -16,9 +16,9 @@ ARG="${2:-default}"
 here="$(cd "$(dirname "$0")/.." && pwd)"
 case "$ID" in
   C41) target=c41_parser; max_len=4096; def_runs=2000000 ;;    # ~2.5k exec/s here (one parser thread per run)
-  C46) target=c46_evt;    max_len=2048; def_runs=40000000 ;;   # ~150k exec/s
+  C46) target=c46_evt;    max_len=2048; def_runs=100000000 ;;  # ~250k exec/s
   C43) target=c43_lsp;    max_len=2048; def_runs=400000 ;;     # ~0.5k exec/s (4-6 parses per run)
-  C20) target=c20_codec;  max_len=8192; def_runs=30000000 ;;   # ~110k exec/s
+  C20) target=c20_codec;  max_len=8192; def_runs=150000000 ;;  # ~700k exec/s
   *) [ "$ARG" = supports ] && exit 1; echo "INCONCLUSIVE property=$ID no fuzz target"; exit 2 ;;
 esac
 [ "$ARG" = supports ] && exit 0
